@@ -11,11 +11,11 @@
      - frames made by FrameHeader::new + Frame::new, serialised and followed by anything, are read back by the
        parser model as the identical frame (C18_frame_parses_back); a stream made of StreamInfo::new and any
        MetadataBlockData::new_unknown blocks is read back as the identical stream (C18_stream_parses_back);
-       bit counts of frames are C08's theorems.
+       both are written in exactly the number of bits they report (C18_frame_count_bits, C18_stream_count_bits).
    MODELLED, NOT PROVED: that datatype.rs / verify.rs / parser.rs are these models - the CTOR stream compares
    every constructor outcome, count_bits, bytes written and parse-back with the model on every run. *)
 From FV Require Import Model.Base Model.Sink Model.Rice Model.Predict Model.Component Model.Flac Model.Parser Model.Ctor
-  Model.Codes Proofs.CtorP Proofs.ParseResidual Proofs.ParseSubframe Proofs.ParseFrame Proofs.ParseFrameCtor Proofs.ParseStream.
+  Model.Codes Proofs.CtorP Proofs.ParseResidual Proofs.ParseSubframe Proofs.ParseFrame Proofs.ParseFrameCtor Proofs.ParseStream Proofs.OpsLen Proofs.CountStream.
 Local Open Scope N_scope.
 
 Theorem C18_total :
@@ -107,3 +107,20 @@ Theorem C18_stream_parses_back : forall rate ch bps i metas bytes,
   stream_bytes (mkStream i metas []) = Ok bytes -> parse_stream bytes = Some (mkStream i metas []).
 Proof. exact constructed_stream_parses_back. Qed.
 Print Assumptions C18_stream_parses_back.
+
+(* ... and is written in exactly the number of bits it reports (a whole number of bytes) *)
+Theorem C18_frame_count_bits :
+  forall block cha bps rate variable off h subs f bytes,
+    header_new block cha bps rate variable off = Ok h -> frame_new h subs = Ok f ->
+    bps < 256 -> rate < 2 ^ 32 -> (variable = false -> off < 2 ^ 32) ->
+    Forall (fun s => sub_typed s /\ sub_quot_u32 s) subs ->
+    frame_bytes f = Ok bytes -> 8 * N.of_nat (length bytes) = frame_count_bits f.
+Proof. exact constructed_frame_count_bits. Qed.
+Print Assumptions C18_frame_count_bits.
+
+(* a stream of StreamInfo::new and any metadata blocks (no frames): the reported count is the number of bits written *)
+Theorem C18_stream_count_bits : forall rate ch bps i metas ops,
+  streaminfo_ctor rate ch bps = Ok i -> stream_ops (mkStream i metas []) = Ok ops ->
+  ops_len 0 ops = stream_count_bits (mkStream i metas []).
+Proof. exact constructed_stream_count_bits. Qed.
+Print Assumptions C18_stream_count_bits.
